@@ -2,7 +2,7 @@
 From Coq Require Import List ZArith NArith Bool Reals.
 Import ListNotations.
 From GS Require Import Num NumR EventLoop Kernel Sim.
-From GS.Proofs Require Import Aux SimP SimP3 SimR.
+From GS.Proofs Require Import Aux SimP SimP3 SimR TraceSpec MoveSpec.
 
 Section C11.
 Context {F : Type} (A : ArithOps F) {PS : Type} (cfg : scfg F).
@@ -36,6 +36,23 @@ Theorem C11_commands_do_not_move (h : sstate F PS) now n a :
   s_pos (fst (fst (do_action A cfg h now n a))) = s_pos h.
 Proof. apply mobility_commands_do_not_move. Qed.
 
+(** WHOLE RUNS, every sequence of commands at arbitrary times: the positions, targets and speeds of
+    a run from build() -- any protocol, any bounds, cut anywhere -- are the replay [m_next] of its
+    trace: a target changes only by an accepted goto / goto-geo of that node, a speed only by an
+    accepted set-speed of that node, positions only when a mobility update executes; and one update
+    ([C11_one_update]) moves every registered node by one [step1] from its OWN current position
+    towards its CURRENT target at its CURRENT speed -- no jump, new commands from the next update. *)
+Theorem C11_whole_run_is_replay {PS' : Type} (react : nat -> PS' -> F -> cb F -> PS' * list (action F)) (c : kcfg F) fuel ps0 :
+  let '(s0, i0) := sim_start A cfg ps0 in
+  let '(s', items, fin) := k_run A (sim_hooks A cfg react) c fuel s0 in
+  after (m_next A cfg) (m0 cfg) (i0 ++ items) = mkM (s_pos (k_h s')) (s_tgt (k_h s')) (s_speed (k_h s')).
+Proof. exact (whole_run_moves A cfg react c fuel ps0). Qed.
+
+Theorem C11_one_update (x : mstate) n :
+  n < c_nnodes cfg -> c_nnodes cfg <= length (m_pos x) ->
+  nth n (step_all A cfg x) (zero3 A) = step1 A cfg (nth n (m_pos x) (zero3 A)) (nth n (m_tgt x) None) (nth n (m_speed x) (f0 A)).
+Proof. exact (step_all_nth A cfg x n). Qed.
+
 End C11.
 
 (** Over the reals, for a non-negative step smaller than the remaining distance, the new point
@@ -63,3 +80,5 @@ Print Assumptions C11_update.
 Print Assumptions C11_commands_do_not_move.
 Print Assumptions C11_advance.
 Print Assumptions C11_lands_R.
+Print Assumptions C11_whole_run_is_replay.
+Print Assumptions C11_one_update.
